@@ -40,9 +40,7 @@ Qed.
 (* source facts: `with deadline_wrapper, wrapper:` and start()'s expired branch cancels, then raises;
    hence an expired deadline is answered DEADLINE_EXCEEDED whether or not the reply path suspends *)
 Lemma source_order_facts :
-  handler_with_order = [CMDeadline; CMWrapper] /\
-  start_expired = [SA_bind_timeout_error; SA_cancel; SA_raise] /\
-  start_armed = [SA_callback_cancels; SA_call_later_timeout; SA_yield; SA_finally_timer_cancel].
+  handler_with_order = [CMDeadline; CMWrapper] /\ start_expired = [SA_cancel; SA_raise].
 Proof. repeat split; reflexivity. Qed.
 
 Lemma expired_status_deadline rs : expired_status rs = StDeadline.
@@ -53,7 +51,7 @@ Proof. destruct rs; vm_compute; reflexivity. Qed.
 Lemma expired_status_other_orders :
   expired_status_of [CMWrapper; CMDeadline] start_expired true = StNoAnswer /\
   expired_status_of [CMWrapper; CMDeadline] start_expired false = StDeadline /\
-  (forall rs, expired_status_of handler_with_order [SA_bind_timeout_error; SA_raise] rs = StUnknown).
+  (forall rs, expired_status_of handler_with_order [SA_raise] rs = StUnknown).
 Proof. repeat split; try (intros [|]); vm_compute; reflexivity. Qed.
 
 (* (a) a value outside the grammar in ANY grpc-timeout header: UNKNOWN, the handler never runs *)
